@@ -85,6 +85,7 @@ def tasks(tier, seed):
     for kind in ('single', 'double', 'fail'):
         for i in range(n):
             out.append({'tier': tier, 'kind': kind, 'slice': [i, n]})
+    out.append({'tier': tier, 'kind': 'names'})
     return out
 
 
@@ -120,7 +121,68 @@ def eqv(a, b):
     return c(a) == c(b)
 
 
+def names_work(ctx, task):
+    """Function names and version-map keys that are str subclasses (string enums, a subclass with a loud
+    __str__): the name that counts is the plain string value, for the record and for the version map alike.
+    Model-free: build(V_old), build(V_new) with the raw API; the function runs again iff the versions differ."""
+    import enum
+    import os
+
+    class Step(str, enum.Enum):
+        PARSE = 'parse'
+
+    class Loud(str):
+        def __str__(self):
+            return 'LOUD'
+    acc = Acc(PROP)
+    sb = ctx.sb
+    FB = ctx.fb.FileBuilder
+    spell = {'plain': 'parse', 'enum': Step.PARSE, 'loud': Loud('parse')}
+    vdom = [ABSENT, 1, 1.0, 2, {'a': 1}]
+    for call, nk, kk, vo, vn in itertools.product(('sb', 'bf', 'sb_in_sb', 'bf_in_sb'), spell, spell, vdom, vdom):
+        sb.reset()
+        name, key = spell[nk], spell[kk]
+        log = []
+
+        def f(b, *a):
+            log.append('f')
+            return 1
+
+        def fb(b, p):
+            log.append('f')
+            with open(p, 'w') as fh:
+                fh.write('x')
+            return 1
+
+        def root(b):
+            def inner(b2):
+                return b2.subbuild(name, f) if call == 'sb_in_sb' else b2.build_file(sb.p('o'), name, fb)
+            if call == 'sb':
+                return b.subbuild(name, f)
+            if call == 'bf':
+                return b.build_file(sb.p('o'), name, fb)
+            return b.subbuild('outer', inner)
+        runs = []
+        for v in (vo, vn, vn):
+            del log[:]
+            FB.build_versioned(sb.p('c'), 'n', {} if (isinstance(v, str) and v == ABSENT) else {key: v}, root)
+            runs.append(len(log))
+        acc.count('histories')
+        acc.count('transitions', 3)
+        want = [1, 0 if eqv(vo, vn) else 1, 0]
+        acc.outcome('names', call, nk, kk, runs)
+        if runs != want:
+            v = viol('version.names', {'call': call, 'name': nk, 'key': kk, 'changed': not eqv(vo, vn)},
+                     invocations=runs, expected=want, old=str(vo), new=str(vn))
+            v['property'] = PROP
+            v['history'] = {'names': [call, nk, kk, str(vo), str(vn)]}
+            acc.violations.append(v)
+    return acc.result(None)
+
+
 def work(ctx, task):
+    if task['kind'] == 'names':
+        return names_work(ctx, task)
     i, n = task['slice']
     acc = Acc(PROP)
     world = World(ctx.sb, ctx.fb, 'K0')
@@ -188,5 +250,8 @@ def coverage(res, tier):
                 'invocation log after the change must equal the prediction (calls of changed functions and their '
                 'transitive callers, reached through re-executing callers; nothing when the versions are JSON-equal '
                 'by the independent canonical form), every build equals the reference model run with the new '
-                'version map, and the effectiveness oracle forbids re-running independent calls.',
+                'version map, and the effectiveness oracle forbids re-running independent calls. Names: function '
+                'name and version-map key each spelled as plain str / str-Enum member / str subclass with a loud '
+                '__str__ x 4 call shapes x 25 version pairs through the raw API: the function runs again iff '
+                'the versions differ.',
     }
